@@ -45,7 +45,7 @@ func init() {
 var hevcAvoidKnown = map[string]bool{
 	// hevc.parseVUI: aspect_ratio_idc = 0 ("Unspecified", Table E.1, a legal value) makes ParseSPSNALUnit fail
 	// with "GetSARFromIDC: SAR bad index 0" (avc.GetSARfromIDC rejects index 0).
-	"hevc-vui-aspect-ratio-idc-0": true,
+	"hevc-vui-aspect-ratio-idc-0": false, // repaired in /repo (fix: commit), see known_findings.json
 	// hevc.SubLayerOrderingInfo.MaxLatencyIncreasePlus1 is a byte, but sps_max_latency_increase_plus1 is ue(v)
 	// with range 0..2^32-2 (7.4.3.2.1): values > 255 are truncated (256 -> 0).
 	"hevc-sps-max-latency-increase-byte": true,
@@ -58,17 +58,17 @@ var hevcAvoidKnown = map[string]bool{
 	// hevc.ParseSliceHeader: short_term_ref_pic_set_sps_flag = 1 with num_short_term_ref_pic_sets = 1:
 	// short_term_ref_pic_set_idx is not present and inferred 0 (7.4.7.1), i.e. the slice uses RPS 0 of the SPS.
 	// The library leaves ShortTermRefPicSet empty (so NumPicTotalCurr misses the short-term pictures).
-	"hevc-slice-strps-idx-inferred": true,
+	"hevc-slice-strps-idx-inferred": false, // repaired in /repo (fix: commit), see known_findings.json
 	// hevc.ParseSliceHeader: num_long_term_ref_pics_sps = 1 and num_long_term_sps = 1: lt_idx_sps[i] is not
 	// present and inferred 0; the library leaves the entry empty (PocLsbLt 0, UsedByCurrPicLtFlag false) and
 	// does not count it in NumPicTotalCurr.
-	"hevc-slice-lt-idx-inferred": true,
+	"hevc-slice-lt-idx-inferred": false, // repaired in /repo (fix: commit), see known_findings.json
 	// hevc.ParseSliceHeader: slice_deblocking_filter_disabled_flag, when not present, is inferred equal to
 	// pps_deblocking_filter_disabled_flag (7.4.7.1); the library uses false, so with
 	// pps_deblocking_filter_disabled_flag = 1, no override, SAO flags 0 and
 	// pps_loop_filter_across_slices_enabled_flag = 1 it reads slice_loop_filter_across_slices_enabled_flag,
 	// which is not in the bitstream (everything after is shifted by one bit).
-	"hevc-slice-deblocking-disabled-inferred": true,
+	"hevc-slice-deblocking-disabled-inferred": false, // repaired in /repo (fix: commit), see known_findings.json
 	// hevc.parsePredWeightTable ("Not implemented" in the source): with pps_curr_pic_ref_enabled_flag = 1 an
 	// entry of RefPicListX that is the current picture has no luma_weight_lX_flag / chroma_weight_lX_flag
 	// (7.3.6.3); the library reads one flag per entry regardless.
